@@ -48,8 +48,14 @@ def _alphabet(b):
     return [NAN if v == "nan" else v for v in b["alphabet"]]
 
 
-def multisets(b):
-    al = _alphabet(b)
+ONE_UP, ONE_DOWN = math.nextafter(1.0, 2.0), math.nextafter(1.0, 0.0)
+# replicates within one ulp of the estimate: "theta <= theta_hat" is an exact comparison in the documented formula
+ULP_ALPHABET = [ONE_DOWN, 1.0, ONE_UP, 2.0, 0.39999999999999997, 0.4]
+ULP_THETA_HATS = [1.0, ONE_UP, ONE_DOWN, 0.39999999999999997, 0.4]
+
+
+def multisets(b, alphabet=None):
+    al = _alphabet(b) if alphabet is None else alphabet
     out = []
     for n in range(1, b["max_replicates"] + 1):
         for combo in itertools.combinations_with_replacement(range(len(al)), n):
@@ -66,6 +72,7 @@ def work(tier, seed):
     n = 64
     items = [{"kind": "sets", "part": i, "parts": n} for i in range(n)]
     items += [{"kind": "stacked", "part": i, "parts": 8} for i in range(8)]
+    items += [{"kind": "sets", "alphabet": "ulp", "part": i, "parts": 16} for i in range(16)]
     items.append({"kind": "errors"})
     items.append({"kind": "pole"})
     return items
@@ -113,7 +120,9 @@ def run(item, ctx, tier, seed):
         return None
     if item["kind"] == "pole":
         return _run_pole(ctx)
-    ms = multisets(b)
+    ulp_item = item.get("alphabet") == "ulp"
+    ms = multisets(b, ULP_ALPHABET) if ulp_item else multisets(b)
+    theta_hats = ULP_THETA_HATS if ulp_item else b["theta_hat"]
     if item["kind"] == "sets":
         mine = ms[item["part"]::item["parts"]]
         skipped = 0
@@ -121,7 +130,7 @@ def run(item, ctx, tier, seed):
             fin = sorted(t for t in theta if not math.isnan(t))
             rng_ = max(fin[-1] - fin[0], 1.0)
             tol = 1e-9 * rng_
-            for th in b["theta_hat"]:
+            for th in theta_hats:
                 ctx.state()
                 p0 = sum(1 for t in fin if t <= th) / len(fin)
                 nontriv = len(set(fin)) >= 2 and 0 < p0 < 1
@@ -179,7 +188,8 @@ def run(item, ctx, tier, seed):
                                     ("nan-prepended", [NAN] + list(theta), th, 1.0, 0.0)]
                         if any(math.isnan(t) for t in theta):
                             variants.append(("nan-removed", [t for t in theta if not math.isnan(t)], th, 1.0, 0.0))
-                        for a_, b_ in AFFINE:
+                        # values one ulp apart survive only maps that are exact in floating point: powers of two, no shift
+                        for a_, b_ in ([(2.0, 0.0), (2.0 ** -30, 0.0)] if ulp_item else AFFINE):
                             variants.append((f"affine{a_},{b_}", [a_ * t + b_ for t in theta], a_ * th + b_, a_, b_))
                         # the caller passes the same ndarray again: it must be unchanged and give the same limits
                         arr = np.array(theta[::-1], dtype=float)  # unsorted, NaNs (if any) first
